@@ -49,7 +49,9 @@ func main() {
 		corpus := fs.String("corpus", "", "json file with a list of cases to run first")
 		caseJSON := fs.String("case", "", "single case (replay)")
 		nomodel := fs.Bool("nomodel", false, "skip the Lean driver (oracles only)")
+		budget := fs.Float64("budget", 0, "wall-clock budget in seconds (0 = none): stop evaluating generated cases when half of it is used")
 		fs.Parse(os.Args[3:])
+		budgetS = *budget
 		noModel = *nomodel
 		driverPath = *driver
 		if s := os.Getenv("VERIF_SEED"); s != "" && !isFlagSet(fs, "seed") {
